@@ -173,6 +173,13 @@ class _FakeNode:
         self.op_type, self.domain, self.outputs = op_type, domain, [None] * n_out
 
 
+try:
+    from onnxscript import tensor as _tensor_mod
+    _GETITEM_CODE = _tensor_mod.Tensor.__getitem__.__code__
+except Exception:  # noqa: BLE001
+    _GETITEM_CODE = None
+
+
 class SymEvaluator(ev.BaseEvaluator):
     """BaseEvaluator whose _eval applies symonnx's rules instead of running onnxruntime"""
 
@@ -183,7 +190,22 @@ class SymEvaluator(ev.BaseEvaluator):
 
     def _eval(self, schema, inputs, attributes, closure):
         self.calls += 1
-        self.ops.append(schema.name)
+        # operators executed by Tensor.__getitem__'s own index arithmetic (s + 1, s == -1, ...) implement the subscript; they are not
+        # "operators or op calls of the source" and are left out of the operator-correspondence side verdict (values are still compared)
+        in_getitem = False
+        if schema.name not in ("Slice", "Gather", "Squeeze"):
+            import sys as _sys
+            fr = _sys._getframe(1)
+            code = _GETITEM_CODE
+            depth = 0
+            while fr is not None and depth < 12:
+                if fr.f_code is code:
+                    in_getitem = True
+                    break
+                fr = fr.f_back
+                depth += 1
+        if not in_getitem:
+            self.ops.append(schema.name)
         if schema.domain not in ("", "ai.onnx"):
             raise NotEncoded(f"op {schema.domain}::{schema.name}")
         ins = [to_sv(x) for x in inputs]
